@@ -22,6 +22,9 @@ type PkgInfo struct {
 	TestGoFiles  []string
 	XTestGoFiles []string
 	Standard     bool
+	Imports      []string
+	SFiles       []string
+	CgoFiles     []string
 	Incomplete   bool
 	Error        *struct{ Err string }
 	DepsErrors   []*struct{ Err string }
@@ -33,7 +36,7 @@ func GoList(dir string, env []string, patterns ...string) ([]PkgInfo, error) {
 	if goBin == "" {
 		goBin = "go"
 	}
-	args := append([]string{"list", "-e", "-json=ImportPath,Dir,Name,GoFiles,TestGoFiles,XTestGoFiles,Standard,Incomplete,Error,DepsErrors"}, patterns...)
+	args := append([]string{"list", "-e", "-json=ImportPath,Dir,Name,GoFiles,TestGoFiles,XTestGoFiles,Standard,Imports,SFiles,CgoFiles,Incomplete,Error,DepsErrors"}, patterns...)
 	pr := run(dir, 300*time.Second, env, goBin, args...)
 	if pr.Exit != 0 && pr.Stdout == "" {
 		return nil, fmt.Errorf("go list: exit %d: %s", pr.Exit, pr.Stderr)
